@@ -135,7 +135,7 @@ func SelfCheck(c *Concrete) error {
 			}
 			return fmt.Errorf("%s body is not JSON: %v", d.name, err)
 		}
-		if !in(w.Get(d.hdrDim), "ok", "duplicated", "threeCerts") || w.Get(d.meta) == "memberMissing" || w.Get(d.extra) == "dupAfter" {
+		if !in(w.Get(d.hdrDim), "ok", "duplicated", "threeCerts") || w.Get(d.hdrDim) == "bitflip" || w.Get(d.meta) == "memberMissing" || w.Get(d.extra) == "dupAfter" {
 			continue
 		}
 		hv := r.Header[d.hdr][0]
